@@ -83,6 +83,8 @@ func init() {
 	"(*strings.Builder).Write":       extBuilderWrite,
 	"crypto/sha256.Sum256":           extSha256Sum,
 	"crypto/sha256.New":              extNonNil,
+	"google.golang.org/protobuf/types/known/timestamppb.New":          extTimestampNew,
+	"(*google.golang.org/protobuf/types/known/timestamppb.Timestamp).AsTime": extTimestampAsTime,
 	"strconv.Itoa":                   extNoop,
 	"(*math/rand.Rand).Shuffle":      nil, // needs a dedicated model; absent = unsupported
 }
